@@ -204,6 +204,11 @@ type Replay struct {
 	Shrunk   int               `json:"shrink_steps"`
 	OrigSeed uint64            `json:"orig_seed"`
 	Other    []simrt.Violation `json:"other_violations,omitempty"`
+	// the worker process that found it ran WorkerRuns runs starting at WorkerSeed0, this one last (a race
+	// report can depend on what the detector saw earlier in the process: such a finding is confirmed by
+	// re-running that prefix in a fresh process)
+	WorkerSeed0 uint64 `json:"worker_seed0,omitempty"`
+	WorkerRuns  int    `json:"worker_runs,omitempty"`
 }
 
 // Summary is what one worker process reports.
@@ -398,7 +403,7 @@ func minimiseAndWrite(t *testing.T, scn Scenario, seed uint64, plan any, rep *Re
 	pb, _ := json.Marshal(cur)
 	rp := &Replay{Property: scn.Property(), Scenario: scn.Name(), Tier: *fTier, Seed: curSeed, Rule: rule,
 		Detail: final.Violations[0].Detail, LogHash: final.LogHash, Plan: pb, Log: final.Log, Panics: final.Panics,
-		Shrunk: steps, OrigSeed: seed}
+		Shrunk: steps, OrigSeed: seed, WorkerSeed0: *fSeed0, WorkerRuns: int(seed-*fSeed0) + 1}
 	if len(final.Violations) > 1 {
 		rp.Other = final.Violations[1:]
 	}
